@@ -13,10 +13,11 @@
 
    usage: heap_trace file.nvm|file.asm [max_steps]          trace on stdout, program output discarded (or NANO_TRACE_OUT=1: stderr)
    Line protocol (consumed by tools/props/c14.py, which feeds the I lines to the extracted Coq model):
-     I <step> <ip> <opcode-hex> <name> <nops> <operand>... | p <v0> <v1> <v2> | c <arity> <locals> <isclos> | k <key> | d <delta>
+     I <step> <ip> <opcode-hex> <name> <nops> <operand>... | p <v0> <v1> <v2> | c <arity> <locals> <isclos> | k <key> | d <delta> | e <t0> <t1> <t2>
          v = i<int64> | r<ord> | n          three topmost stack values BEFORE the instruction (v0 = top)
          key = content key of the string on top of the stack AFTER the instruction (-1 when top is not a string)
          c   = callee arity / local_count for CALL*, argc for CALL_EXTERN
+         t     = VmArray.elem_type of v0/v1/v2 when that value is an array, else -1 (statistics only; the model has no element tag)
          delta = stack_size after - stack_size before the instruction (an extern call that failed pushes no result)
      A <ord> <tag> / F <ord> <tag>         allocation / free events, in order, between I lines
      S <step> <stack_size> <frame_count> <ord>:<tag>:<rc>:<indeg> ...      state AFTER instruction <step>
@@ -166,6 +167,7 @@ static void emit_state(VmState *vm) {
 /* ---------------------------------------------------------------- step hook */
 static int have_pending;
 static char pend[512];
+static char pend_elem[64] = "-1 -1 -1";   /* elem_type tag of the arrays among the three topmost stack values before the instruction */
 static uint8_t pend_op; static uint32_t pend_frames, pend_stack;
 static long max_steps = 200000;
 
@@ -184,7 +186,7 @@ static void finish_pending(VmState *vm) {
         NanoValue v = vm->stack[vm->stack_size - 1];
         if (v.tag == TAG_STRING && v.as.string && tab_find(v.as.string)) key = content_key(v.as.string->data, v.as.string->length);
     }
-    fprintf(T, "%s | k %ld | d %ld\n", pend, key, (long)vm->stack_size - (long)pend_stack);
+    fprintf(T, "%s | k %ld | d %ld | e %s\n", pend, key, (long)vm->stack_size - (long)pend_stack, pend_elem);
     if (pend_op != OP_RET && vm->frame_count < pend_frames) fprintf(T, "X %ld implicit-ret\n", cur_step);
     audit(vm);
     emit_state(vm);
@@ -210,6 +212,14 @@ static void step_cb(VmState *vm, const DecodedInstruction *in, uint32_t ip) {
     }
     char v0[40], v1[40], v2[40];
     fmt_val(v0, sizeof v0, vm, 0); fmt_val(v1, sizeof v1, vm, 1); fmt_val(v2, sizeof v2, vm, 2);
+    {
+        int et[3] = { -1, -1, -1 };
+        for (uint32_t k = 0; k < 3 && k < vm->stack_size; k++) {
+            NanoValue sv = vm->stack[vm->stack_size - 1 - k];
+            if (sv.tag == TAG_ARRAY && sv.as.obj && tab_find(sv.as.obj)) et[k] = sv.as.array->elem_type;
+        }
+        snprintf(pend_elem, sizeof pend_elem, "%d %d %d", et[0], et[1], et[2]);
+    }
     long ar = -1, lc = -1, isclos = 0;
     const NvmFunctionEntry *callee = NULL;
     if (in->opcode == OP_CALL && in->operands[0].u32 < vm->module->function_count) callee = &vm->module->functions[in->operands[0].u32];
@@ -236,6 +246,7 @@ static VmResult run_fn(VmState *vm, uint32_t fn) {
     cur_step++;
     /* the harness call itself is logged as a pseudo-instruction; its state line is emitted before the first real one */
     snprintf(pend, sizeof pend, "I %ld %u ff ENTER 1 %u | p n n n | c 0 %u 0", cur_step, f->code_offset, fn, f->local_count);
+    snprintf(pend_elem, sizeof pend_elem, "-1 -1 -1");
     pend_op = OP_RET; pend_frames = vm->frame_count; pend_stack = vm->stack_size; have_pending = 1;
     VmResult r = vm_call_function(vm, fn, NULL, 0);
     finish_pending(vm);
@@ -295,7 +306,7 @@ int main(int argc, char **argv) {
     }
     /* teardown: vm_destroy releases globals and the stack; every free must hit a registered live object */
     cur_step++;
-    fprintf(T, "I %ld 0 fe DESTROY 0 | p n n n | c -1 -1 0 | k -1 | d 0\n", cur_step);
+    fprintf(T, "I %ld 0 fe DESTROY 0 | p n n n | c -1 -1 0 | k -1 | d 0 | e -1 -1 -1\n", cur_step);
     vm_verif_step_cb = NULL;
     uint32_t gc = vm.global_count;
     vm_destroy(&vm);
